@@ -10,7 +10,7 @@ from ..core import run as sh
 LEVEL = "exploration"
 NINE = ["Copy", "Clone", "Debug", "Default", "Hash", "PartialEq", "Eq", "PartialOrd", "Ord"]
 ALL_DERIVES = ["--with-derive-default", "--with-derive-hash", "--with-derive-partialeq", "--with-derive-eq", "--with-derive-ord", "--with-derive-partialord"]
-SPEC_CFG = dict(p_bitfield=0.1, bf_in_union=False, p_packed=0.0, p_aligned=0.0, p_pragma=0.0, p_field_align=0.0, p_fam=0.0, p_zero_len=0.0,
+SPEC_CFG = dict(p_fnptr_many=0.35, p_fn_typedef=0.4, p_bitfield=0.1, bf_in_union=False, p_packed=0.0, p_aligned=0.0, p_pragma=0.0, p_field_align=0.0, p_fam=0.0, p_zero_len=0.0,
                 p_union=0.15, p_anon=0.1, p_inline_named=0.08, p_float=0.2, p_fnptr=0.1, depth=2, n_records=(3, 7), p_enum_fixed=0.0,
                 allow_enum_bitfield=False)
 BEH_CFG = dict(p_bitfield=0.2, bf_in_union=False, p_packed=0.1, p_aligned=0.06, p_pragma=0.05, p_fam=0.0, p_zero_len=0.0, p_union=0.1,
@@ -21,7 +21,7 @@ def facts(rec, memo):
     """constituent facts of a record (by value, transitively)"""
     if id(rec) in memo:
         return memo[id(rec)]
-    f = {"float": False, "ptr": False, "big": False, "union": rec.kw == "union", "enum": False, "fnptr": False}
+    f = {"float": False, "ptr": False, "big": False, "union": rec.kw == "union", "enum": False, "fnptr": False, "fnptr_many": False}
     memo[id(rec)] = f
     for fl in rec.fields:
         if fl.inline is not None:
@@ -47,6 +47,8 @@ def facts(rec, memo):
                 f["ptr"] = True
             elif t.kind == "fnptr":
                 f["fnptr"] = True
+                if len(t.args) > 12:
+                    f["fnptr_many"] = True
             elif t.kind == "enum":
                 f["enum"] = True
     return f
@@ -56,6 +58,12 @@ def spec_derives(rec, memo, rust_enums=False):
     f = facts(rec, memo)
     if f["union"]:
         return {"Copy", "Clone"}
+    if f["fnptr_many"]:
+        # function pointers with more than 12 parameters implement only Copy/Clone (and, as Option<fn>, Default)
+        s = {"Copy", "Clone"}
+        if not f["ptr"] and not f["big"] and not (rust_enums and f["enum"]):
+            s.add("Default")
+        return s
     s = {"Copy", "Clone", "Debug", "PartialEq", "PartialOrd"}
     if not f["float"]:
         s |= {"Hash", "Eq", "Ord"}
@@ -170,7 +178,15 @@ def spec_case(chk, i):
             problems.append("traits withheld although the documented rules allow them and rustc accepts them when added: %s" % withheld[:8])
         else:
             notes.append("spec-only disagreement (rustc rejects the added derive): %s" % withheld[:4])
-    if extra:
+    hard = []
+    for rname, t in extra:
+        rec = dict(all_records(model)).get(rname)
+        if rec is not None and facts(rec, memo)["fnptr_many"] and t in ("Debug", "Hash", "PartialEq", "Eq", "PartialOrd", "Ord"):
+            hard.append((rname, t))
+    if hard:
+        problems.append("traits derived although a constituent cannot support them by the documented rules (function pointer with more than "
+                        "12 parameters): %s" % hard[:6])
+    elif extra:
         notes.append("derives beyond my specification (not judged): %s" % extra[:4])
     if problems:
         return Verdict(VIOLATED, name, "\n".join(problems), files=files, obs=obs)
